@@ -19,6 +19,14 @@ CHECKS = {
         "text": "Every pair of virtual trees of a bounded universe (exhaustive) and random larger pairs are snapshotted by the real DirectorySnapshot and diffed; the result must equal an independent reference diff and satisfy the set equation, list discipline, self-diff, swap and ignore_device laws. Exploration: holds on everything generated, says nothing beyond the universe.",
         "note": "Trusted: vlib/vfs.py (virtual stat/listdir) and the 10-line reference diff. Inode numbers are unique per tree (the statement's precondition).",
     },
+    "C10": {
+        "engine": "pure",
+        "category": "fault_enumeration",
+        "design_ref": "DESIGN.md §4 C10",
+        "technique": "property-based testing with fault enumeration: generated chains of virtual tree states polled by the real PollingEmitter, a fault at every stat/listdir position, oracle = reference diff of effective trees",
+        "text": "The real PollingEmitter is driven synchronously over a virtual file system; every (stat|listdir, path) position of a walk is failed with ENOENT/ENOTDIR/EACCES or preceded by a racing delete / dir-to-file replacement (exhaustive for the small universe, random for larger chains); per poll the multiset, classes, paths and deleted-before-created order of the queued events must equal the reference diff of the effective trees; root loss gives exactly one DirDeletedEvent and a stopped emitter.",
+        "note": "Trusted: vlib/vfs.py, the effective-tree rule and reference diff written in props/c10.py. Threads/clock of the polling loop are out of scope here (C06).",
+    },
 }
 
 ALL = [f"C{i:02d}" for i in range(1, 21)]
